@@ -187,6 +187,19 @@ def run(ctx):
     check(ctx, 'indent', ind)
     # texts the grammar does not derive (incl. the three witnesses of the parser defects): a clean syntax error, promptly
     check(ctx, 'ungrammatical', pc.ungrammatical(rng, ctx.n(3 * len(pc.UNGRAMMATICAL), 20 * len(pc.UNGRAMMATICAL))))
+    # one Interpreter object used for two programs in a row: what the second compiles to (tree or syntax error, code, line, caret)
+    # is a function of its own text — whatever was compiled before it (longer, shorter, rejected)
+    pool = [('输出 0\n' + s) for s in canon] + [('输出 0\n' + s) for s in rng.sample(cor, min(len(cor), ctx.n(150, 3000)))]
+    pairs = [(rng.choice(pool), rng.choice(pool)) for _ in range(ctx.n(400, 8000))]
+    alone = ctx.run_go(['run ' + cps(b) for _, b in pairs])
+    after = ctx.run_go(['runafter %s %s' % (cps(a), cps(b)) for a, b in pairs])
+    for (a, b), g1, g2 in zip(pairs, alone, after):
+        ctx.evaluations += 1
+        if g1 != g2 and not (g1.startswith('timeout') or g2.startswith('timeout')):
+            ctx.violation('after-another-program', 'runafter %s %s' % (cps(a), cps(b)), g2, g1 + '   (the second program alone)')
+        if a.count('\n') > b.count('\n') > 1:
+            ctx.nontriv(b)
+    ctx.streams.append({'stream': 'after-another-program', 'cases': len(pairs)})
     # the printer alone, any cursor
     errline.stream(ctx, ctx.n(4000, 200000))
 
